@@ -124,6 +124,7 @@ class FuncState:
         self.esc = {}  # origin -> list of (qual, where, what)
         self.env_final = {}
         self.sink_sites = {}  # (lineno, col, kind) -> record for candidate accounting
+        self.param_stores = set()  # (parameter, stored origins, where, text): element stores into a parameter
 
 
 class E2:
@@ -580,6 +581,13 @@ class Interp:
         for o in bav.own:
             if o[0] == "G":
                 self.store_global(o[1], o[2], av, node)
+            elif o[0] == "P" and o[1] == self.f.qual:
+                # a store into a container that is a parameter: when a caller binds the parameter to module state, the
+                # store is a store into that state (replayed at the call site, see instantiate)
+                rec = (o[2], frozenset(av.own | av.elem), self.where(node), norm(node)[:120])
+                if rec not in self.S.param_stores:
+                    self.S.param_stores.add(rec)
+                    self.eng.touch()
 
     # ------------------------------------------------------------------ expressions
     def ev(self, e):
@@ -1218,6 +1226,19 @@ class Interp:
                           kind="call:" + g.qual + ":" + o[2] + ":" + o[0], via=(g.qual, o))
             elif o[0] == "SELF" and g.is_method:
                 pass
+        for pname, stored, where_, text in list(gst.param_stores):
+            b = binding.get(pname)
+            if b is None:
+                continue
+            sav = AV(own=subst(stored))
+            for o in b.own:
+                if o[0] == "G":
+                    self.store_global(o[1], o[2], sav, e)
+                elif o[0] == "P" and o[1] == self.f.qual:
+                    rec = (o[2], frozenset(sav.own | sav.elem), where_, text)
+                    if rec not in self.S.param_stores:
+                        self.S.param_stores.add(rec)
+                        self.eng.touch()
         for o, chains in list(gst.esc.items()):
             if o[0] in ("P", "PE") and o[1] == g.qual:
                 tgt = subst([o])
